@@ -944,6 +944,60 @@ def e_init(interp, recv, args):
     return recv
 
 
+# ----------------------------------------------------------------------------- std.regexp (a subset)
+# Only patterns on which python's re and the regex crate agree are generated (literals, classes, + * ?, groups, |).
+def rx_init(interp, recv, args):
+    import re
+    recv.fields["pattern"] = args[0]
+    recv.fields["flags"] = args[1] if len(args) > 1 else ""
+    try:
+        re.compile(args[0])
+    except re.error:
+        raise _model().Unsupported("regexp pattern python rejects")
+    return recv
+
+
+def _rx(recv):
+    import re
+    return re.compile(recv.fields["pattern"])
+
+
+def rx_test(interp, recv, args):
+    return _rx(recv).search(args[0]) is not None
+
+
+def rx_match(interp, recv, args):
+    m = _rx(recv).search(args[0])
+    return m.group(0) if m else None
+
+
+def rx_match_all(interp, recv, args):
+    found = [m.group(0) for m in _rx(recv).finditer(args[0])]
+    interp.tick(len(found))
+    return LList(found) if found else None
+
+
+def rx_captures(interp, recv, args):
+    m = _rx(recv).search(args[0])
+    if m is None:
+        return None
+    return LList([m.group(0)] + list(m.groups()))
+
+
+def regexp_class(interp):
+    cls = interp.classes.get("RegExp")
+    if cls is None:
+        cls = LClass("RegExp", interp.classes["Object"], native_kind="regexp")
+        cls.fields = ["pattern", "flags"]
+        cls.methods["init"] = LNative("init", rx_init, (1, 2), ("str", "str"))
+        cls.methods["test"] = LNative("test", rx_test, (1, 1), ("str",))
+        cls.methods["match"] = LNative("match", rx_match, (1, 1), ("str",))
+        cls.methods["matchAll"] = LNative("matchAll", rx_match_all, (1, 1), ("str",))
+        cls.methods["captures"] = LNative("captures", rx_captures, (1, 1), ("str",))
+        interp.classes["RegExp"] = cls
+    return cls
+
+
 def ch_len(interp, recv, args):
     return float(len(recv.buf))
 
